@@ -23,6 +23,17 @@ func shrinkReplay(t *testing.T, pd *propDef, rf *ReplayFile, budget int) (*Repla
 		}
 		return false
 	}
+	// pin the order in which the scripts advanced, so that dropping an item
+	// does not reshuffle everything after it
+	{
+		res := RunPlan(t, best.Plan, replayTape(best.Tape), pd.chk, false)
+		runs++
+		if res.Viol != nil && res.Viol.Fp == fp && len(best.Plan.Knobs.Order) == 0 {
+			p := best.Plan.clone()
+			p.Knobs.Order = append([]int(nil), res.TurnLog...)
+			try(p, best.Tape)
+		}
+	}
 	for pass := 0; pass < 3 && runs < budget; pass++ {
 		progress := false
 		// knobs
@@ -76,6 +87,7 @@ func shrinkReplay(t *testing.T, pd *propDef, rf *ReplayFile, budget int) (*Repla
 			if len(p.Clients[ci].Items) == 0 {
 				continue
 			}
+			p.Knobs.Order = dropTurns(p.Knobs.Order, ci, 0, len(p.Clients[ci].Items))
 			p.Clients[ci].Items = nil
 			if try(p, best.Tape) {
 				progress = true
@@ -93,6 +105,7 @@ func shrinkReplay(t *testing.T, pd *propDef, rf *ReplayFile, budget int) (*Repla
 					}
 					p := best.Plan.clone()
 					p.Clients[ci].Items = append(append([]Item(nil), items[:start]...), items[end:]...)
+					p.Knobs.Order = dropTurns(p.Knobs.Order, ci, start, end)
 					if try(p, best.Tape) {
 						progress = true
 					} else {
@@ -128,4 +141,25 @@ func shrinkReplay(t *testing.T, pd *propDef, rf *ReplayFile, budget int) (*Repla
 		}
 	}
 	return best, runs
+}
+
+// dropTurns removes from a pinned order the turns that consumed items
+// [start,end) of client ci.
+func dropTurns(order []int, ci, start, end int) []int {
+	if len(order) == 0 {
+		return order
+	}
+	out := make([]int, 0, len(order))
+	k := 0
+	for _, c := range order {
+		if c == ci {
+			if k >= start && k < end {
+				k++
+				continue
+			}
+			k++
+		}
+		out = append(out, c)
+	}
+	return out
 }
